@@ -37,6 +37,58 @@ ASSUMPTIONS = [
 BARRIER_OPS = {"wait", "reset", "abort"}
 
 
+MUTANTS = [
+    ("pool of cores", "AegeanTools/BANE.py",
+     "pool = ctx.Pool(processes=max(cores, len(ymaxs)), maxtasksperchild=1,",
+     "pool = ctx.Pool(processes=cores, maxtasksperchild=1,", "C07-R1"),
+    ("parties = cores", "AegeanTools/BANE.py",
+     "barrier = ctx.Barrier(parties=len(ymaxs))",
+     "barrier = ctx.Barrier(parties=cores)", "C07-R1"),
+    ("reset after wait", "AegeanTools/BANE.py",
+     "    # wait for all to complete\n    barrier.wait()\n",
+     "    # wait for all to complete\n    i = barrier.wait()\n    if i == 0:"
+     "\n        barrier.reset()\n", "C07-R2"),
+    ("reset in handler", "AegeanTools/BANE.py",
+     "            barrier.abort()", "            barrier.reset()", "C07-R"),
+    ("no abort", "AegeanTools/BANE.py",
+     "        if barrier is not None:\n            barrier.abort()\n", "",
+     "C07-R3"),
+    ("stripe-dependent wait", "AegeanTools/BANE.py",
+     "    if domask:\n        # wait for all to complete\n        "
+     "barrier.wait()\n",
+     "    if domask and ymin > 0:\n        # wait for all to complete\n"
+     "        barrier.wait()\n", "C07-R2"),
+    ("unlink outside finally", "AegeanTools/BANE.py",
+     "    finally:\n        ibkg.close()\n        ibkg.unlink()\n        "
+     "irms.close()\n        irms.unlink()\n        if exit:",
+     "    finally:\n        ibkg.close()\n        irms.close()\n        "
+     "irms.unlink()\n        if exit:", "C07-R4"),
+    ("first release needs second", "AegeanTools/BANE.py",
+     "    finally:\n        ibkg.close()\n        ibkg.unlink()\n        "
+     "irms.close()\n        irms.unlink()\n",
+     "    finally:\n        irms.close()\n        irms.unlink()\n        "
+     "ibkg.close()\n        ibkg.unlink()\n", "C07-R4"),
+    ("mask phase without barrier", "AegeanTools/BANE.py",
+     "    if domask:\n        # wait for all to complete\n        "
+     "barrier.wait()\n\n", "    if domask:\n", "C07-R5"),
+    ("gap in tiling", "AegeanTools/BANE.py",
+     "        ymaxs = list(range(width_y, img_y, width_y))\n",
+     "        ymaxs = list(range(width_y - 1, img_y, width_y))\n", "C07-R6"),
+    ("last stripe not closed", "AegeanTools/BANE.py",
+     "        ymaxs.append(img_y)\n", "        ymaxs.append(img_y - 1)\n",
+     "C07-R6"),
+    ("rms only when masking", "AegeanTools/BANE.py",
+     "    irms[ymin:ymax, :] = interp_rms\n",
+     "    if domask:\n        irms[ymin:ymax, :] = interp_rms\n", "C07-R6"),
+]
+TWINS = [
+    ("processes exactly parties", "AegeanTools/BANE.py",
+     "pool = ctx.Pool(processes=max(cores, len(ymaxs)), maxtasksperchild=1,",
+     "pool = ctx.Pool(processes=len(ymaxs), maxtasksperchild=1,"),
+]
+
+
+
 def barrier_calls(fnode, bname):
     out = []
     for n in walk_no_nested(fnode):
